@@ -59,7 +59,7 @@ func (c09) Budget(tier string) runner.Budget {
 	if tier == "thorough" {
 		return runner.Budget{Plans: 30000, PlansPerProc: 30, Wall: 14 * time.Minute}
 	}
-	return runner.Budget{Plans: 4800, PlansPerProc: 30, Wall: 45 * time.Second}
+	return runner.Budget{Plans: 6000, PlansPerProc: 30, Wall: 45 * time.Second}
 }
 
 func (c09) Describe() runner.Description {
